@@ -24,15 +24,23 @@ AXIOMS = [
                patterns=[z3.MultiPattern(cntW(_k, _i), cntW(_k, _j))])),
 ]
 _map_id = z3.Function("mapping_identity", z3.ArraySort(z3.StringSort(), z3.BoolSort()), z3.IntSort())
+_robot_attr = z3.Function("robot_attribute", z3.StringSort(), Ref)
+_cls_attr = z3.Function("robot_class_attribute", z3.StringSort(), Ref)
+_is_method = z3.Function("inspect_ismethod", Ref, z3.BoolSort())
 SPEC_FUNCS = {
+    "robot_attr": lambda n: vref(_robot_attr(n.z), "PyObj"), "cls_attr": lambda n: vref(_cls_attr(n.z), "PyObj"), "is_method": lambda o: vbool(_is_method(o.z)),
+    "PROPERTY": lambda: vref(z3.Const("class.property", Ref), "PyObj"), "TUNABLE": lambda: vref(z3.Const("class.magic_tunable.tunable", Ref), "PyObj"),
     "map_id": lambda m: vint(_map_id(m.comps[0])),
     "robot_has": lambda n: vbool(_robot_has(n.z)),
     "count_names": lambda m, i: vint(cntW(map_parts(m)[2].comps[1], i.z)),
 }
-GLOBALS = {"g_hints": "Map[Str,Ref:TypeObj]", "g_seq": "Int"}
+GLOBALS = {"g_hints": "Map[Str,Ref:TypeObj]", "g_seq": "Int", "g_rdir": "Seq[Str]"}
 MACROS = {
     "is_comp_name(n)": "not startswith(n, '_') and not robot_has(n)",
     "HINTS()": "g_hints",
+    "excluded(r, n)": "exists(i, Int, 0 <= i and i < len(r._exclude_from_injection) and r._exclude_from_injection[i] == n)",
+    # which robot attribute names are injectable: public, not excluded, not a property / tunable on the class, not a bound method
+    "injectable_name(r, n)": "not startswith(n, '_') and not excluded(r, n) and not isinstance(cls_attr(n), PROPERTY()) and not isinstance(cls_attr(n), TUNABLE()) and not is_method(robot_attr(n))",
 }
 CLASSES = {
     "InjTarget": {"fields": {"g_injected": "Bool", "logger": "py"}},
@@ -44,7 +52,7 @@ CLASSES = {
     "Selector2": {"fields": {"modes": "Map[Str,Ref:ModeObj]"}},
     "FbGetter": {"fields": {}}, "FbSetter": {"fields": {}}, "ResetDictObj": {"fields": {"d": "Map[Str,Ref:PyObj]"}},
     MR: {"fields": {"_components": f"Seq[(Str,Ref:{COMP})]", "_feedbacks": "Seq[(Ref:FbGetter,Ref:FbSetter)]", "_automodes": "Ref:Selector2",
-                    "_reset_components": f"Seq[(Ref:ResetDictObj,Ref:InjTarget)]"}},
+                    "_reset_components": f"Seq[(Ref:ResetDictObj,Ref:InjTarget)]", "_exclude_from_injection": "Seq[Str]"}},
 }
 _SETUP_EV = {"setup counted": "self.g_cnt == old(self.g_cnt) + 1", "serial": "self.g_last == g_seq and g_seq == old(g_seq) + 1"}
 CONTRACTS = {
@@ -68,8 +76,24 @@ CONTRACTS = {
     "rinit.dict_update_reset": {"kind": "external", "params": {"obj": "Ref:InjTarget", "rd": "Ref:ResetDictObj"}, "modifies": ["obj.attrs"],
                                 "ensures": {"dict.update": "forall(k, Str, implies(has(rd.d, k), has(obj.attrs, k) and obj.attrs[k] is rd.d[k])) and forall(k, Str, implies(not has(rd.d, k), has(obj.attrs, k) == old(has(obj.attrs, k)) and obj.attrs[k] is old(obj.attrs[k])))"},
                                 "note": "component.__dict__.update(reset_dict)"},
-    f"{MR}._collect_injectables": {"verify": False, "receivers": [MR], "params": {}, "returns": "Map[Str,Ref:PyObj]", "modifies": [],
-                                   "ensures": {"a proper dict": "wf_map(result)"}, "note": "which robot attributes are injectable: dir(self)/getattr reflection - bounded stand-in only (native/replay_c08.py)"},
+    "rinit.dir": {"kind": "external", "params": {"obj": "py"}, "returns": "Seq[Str]", "pure_result": "g_rdir",
+                  "ensures": {"attribute names, each once": "len(result) >= 0 and forall(a, Int, forall(b, Int, implies(0 <= a and a < b and b < len(result), result[a] != result[b])))"},
+                  "note": "dir(self): every attribute name of the robot - instance, class-level and inherited (reflection; that inherited names are included is the assumption C08 relies on)"},
+    "rinit.getattr_cls": {"kind": "external", "params": {"cls": "py", "name": "Str", "default": "py"}, "returns": "Ref:PyObj", "ensures": {"class attribute or None": "result is cls_attr(name)"}, "note": "getattr(type(self), n, None)"},
+    "rinit.getattr_self": {"kind": "external", "params": {"obj": "py", "name": "Str"}, "returns": "Ref:PyObj", "ensures": {"the object stored on the robot under that name": "result is robot_attr(name)"},
+                           "note": "getattr(self, n) for a name dir(self) listed (assumed not to raise)"},
+    "inspect.ismethod": {"kind": "external", "params": {"o": "Ref:PyObj"}, "returns": "Bool", "ensures": {"bound method?": "result == is_method(o)"}, "note": "inspect.ismethod"},
+    f"{MR}._collect_injectables": {
+        "receivers": [MR], "params": {}, "returns": "Map[Str,Ref:PyObj]", "modifies": [], "local_sorts": {"injectables": "Map[Str,Ref:PyObj]"},
+        "loops": {0: {"inv": {
+            "C08.J1 (so far) every injectable name seen maps to the very object stored on the robot": "wf_map(injectables) and forall(j, Int, implies(0 <= j and j < __i and injectable_name(self, g_rdir[j]), has(injectables, g_rdir[j]) and injectables[g_rdir[j]] is robot_attr(g_rdir[j])))",
+            "C08.J2 (so far) nothing else is offered": "forall(k, Str, implies(has(injectables, k), injectable_name(self, k) and injectables[k] is robot_attr(k) and exists(j, Int, 0 <= j and j < __i and g_rdir[j] == k)))"}}},
+        "ensures": {"a proper dict": "wf_map(result)",
+                    "C08.J1 every public robot attribute that dir(self) lists (class-level and inherited ones included) and that is not excluded, not a property / tunable and not a method is offered under its own name as the very object stored on the robot":
+                    "forall(j, Int, implies(0 <= j and j < len(g_rdir) and injectable_name(self, g_rdir[j]), has(result, g_rdir[j]) and result[g_rdir[j]] is robot_attr(g_rdir[j])))",
+                    "C08.J2 nothing else is offered (private names, excluded names, properties, tunables and methods are not injectable)":
+                    "forall(k, Str, implies(has(result, k), injectable_name(self, k) and result[k] is robot_attr(k)))"},
+    },
     "rinit.init_hints": {"kind": "external", "params": {"init": "py"}, "returns": "Map[Str,Ref:TypeObj]",
                          "ensures": {"proper dict of annotation objects": "wf_map(result) and forall(k, Str, implies(has(result, k), result[k] is not None))"},
                          "note": "typing.get_type_hints(ctyp.__init__): the constructor's parameter annotations (reflection)"},
@@ -144,12 +168,12 @@ CONTRACTS = {
         },
     },
 }
-NAMES = {}
+NAMES = {"dir": ("contract", "rinit.dir"), "property": ("dotted", "property")}
 CALL_OVERRIDES = {(f"{MR}._create_component", "typing.get_type_hints"): "rinit.init_hints", (f"{MR}._create_component", "ctyp"): "rinit.construct"}
-DYN_GETATTR = {(f"{MR}._create_component", "setattr"): "rinit.setattr_robot", (f"{MR}._create_components", "hasattr"): "rinit.hasattr", (f"{MR}._setup_vars", "__dict__.update"): "rinit.dict_update_map",
+DYN_GETATTR = {(f"{MR}._collect_injectables", "getattr/3"): "rinit.getattr_cls", (f"{MR}._collect_injectables", "getattr/2"): "rinit.getattr_self", (f"{MR}._create_component", "setattr"): "rinit.setattr_robot", (f"{MR}._create_components", "hasattr"): "rinit.hasattr", (f"{MR}._setup_vars", "__dict__.update"): "rinit.dict_update_map",
                (f"{MR}._setup_reset_vars", "__dict__.update"): "rinit.dict_update_reset"}
 ASSUMPTIONS = [
     "typing.get_type_hints(cls) yields the robot class's annotations with base-class annotations first (reflection); hasattr(self, m) depends on the name only",
-    "ctyp(**injections) returns a NEW object (user constructor); _collect_injectables returns a proper dict (reflection-bound, bounded stand-in only)",
+    "ctyp(**injections) returns a NEW object (user constructor); dir(self) lists every robot attribute name once, inherited and class-level ones included (reflection; exercised by the bounded stand-in)",
     "setup_tunables / collect_feedbacks / collect_resets are used through their contracts verified elsewhere (C09 / C11 / C10)",
 ]
